@@ -20,7 +20,7 @@ ASSUMPTIONS = ['serial request units are drawn from 1..247 (0 is broadcast, 0 an
                'binary transactions whose frames contain delimiter bytes are excluded (KF-BINARY-FRAMER-DELIMITER-BYTES)']
 BUDGET = {'quick': 5000, 'thorough': 10000}
 CLIENTS = ['tcp', 'rtu', 'ascii', 'binary', 'tcp+rtu', 'tcp+ascii']
-PARTS = ['reply', 'reply', 'exc', 'other_tid', 'other_unit', 'other_fc', 'dup_prev', 'tid_zero', 'tid_max', 'other_fc_exc']
+PARTS = ['reply', 'reply', 'exc', 'other_tid', 'other_unit', 'other_fc', 'dup_prev', 'tid_zero', 'tid_max', 'other_fc_exc', 'corrupt']
 
 
 def framing_of(client):
@@ -130,6 +130,8 @@ class ScriptPeer(transports.Peer):
             elif part == 'other_unit':
                 other = [0, (uid % 247) + 1, 255, uid - 1 if uid > 1 else 2][(self.seq + len(self.placed)) % 4]
                 fr = (other, tid, transports.reply_pdu(rpdu, self.seq + 2000))
+            elif part == 'corrupt':
+                fr = (uid, tid, transports.reply_pdu(rpdu, self.seq + 4000))
             elif part == 'other_fc_exc':
                 # an exception reply to ANOTHER function (same unit, same transaction id)
                 ofc = 4 if rpdu[0] != 4 else 3
@@ -143,6 +145,17 @@ class ScriptPeer(transports.Peer):
                 fr = self.prev_reply
             role = 'other_tid' if part in ('tid_zero', 'tid_max') else ('other_fc' if part == 'other_fc_exc' else part)
             frame = refframe.build(self.framing, fr[0], fr[2], fr[1] or 0, 0)
+            if part == 'corrupt':
+                if self.framing == 'tcp':
+                    continue                     # no checksum on TCP: a flipped data bit is a different valid frame
+                # the reply with one data bit flipped on the line (check value left as it was)
+                good = bytes(fr[2])
+                bad = good[:-1] + bytes([good[-1] ^ 0x01])
+                pos = frame.find(good) if self.framing != 'ascii' else frame.find(good.hex().upper().encode())
+                if pos < 0:
+                    continue
+                frame = frame[:pos] + (bad if self.framing != 'ascii' else bad.hex().upper().encode()) + frame[pos + (len(good) if self.framing != 'ascii' else 2 * len(good)):]
+                fr = (fr[0], fr[1], bad)
             self.placed.append({'uid': fr[0], 'tid': fr[1], 'pdu': fr[2], 'role': role, 'frame': frame})
             if part in ('reply', 'exc'):
                 self.prev_reply = fr
@@ -259,6 +272,9 @@ def run_case(case):
                 if match is None:
                     discs.append(Disc('reply-not-from-this-call', '%s tx %d: returned %s %r matches no frame that entered the receive path (script %r)' % (
                         ckind, i, k2, g, tx['script'])))
+                    break
+                if match['role'] == 'corrupt':
+                    discs.append(Disc('corrupted-reply-returned', '%s tx %d: the call returned the content of a reply whose check value does not match (a bit was flipped on the line): %s %r' % (ckind, i, k2, g)))
                     break
                 if conformant_only and match['role'] not in ('reply', 'exc'):
                     discs.append(Disc('conformant-reply-not-returned', '%s tx %d: returned a %s frame' % (ckind, i, match['role'])))
